@@ -35,7 +35,17 @@ COMMENT_TEMPLATES = [
 def step_file(d):
     """-> (class, name, text)"""
     k = d.weighted([(4, "clean.c"), (2, "clean.h"), (4, "viol"), (2, "fatal-garbage"), (2, "fatal-if"), (1, "fatal-if-deep"), (2, "lexical"),
-                    (2, "deep-parens"), (2, "bad-chars"), (1, "empty"), (3, "comment-scan")])
+                    (2, "deep-parens"), (2, "bad-chars"), (1, "empty"), (3, "comment-scan"), (2, "header-only"), (2, "broken-header"), (1, "comments-only")])
+    if k in ("header-only", "broken-header", "comments-only"):
+        from .. import header42
+        f = header42.fields(d, None)
+        hdr = header42.render(f)
+        if k == "header-only":      # the file ends while the leading comment run is still open
+            return k, "stub.c", "\n".join(hdr) + ("\n" if d.bool() else "")
+        if k == "comments-only":
+            return k, "cmts.c", "\n".join(hdr[:d.int(1, 10)]) + "\n// and a line comment\n"
+        mid = d.choice([m for m in header42.MUTATIONS if m not in ("H1", "H2", "H3a", "H3b")])
+        return k, "broken.c", "\n".join(header42.mutate(hdr, mid)) + "\n\nint\tft_b(void)\n{\n\treturn (0);\n}\n"
     if k == "clean.c":
         p = family.member_of(d, violating=0.0, ftype="c", opts={"small": True})
         return k, p.name, p.text
@@ -76,7 +86,21 @@ def step_file(d):
 def history(d):
     steps = []
     for _ in range(d.int(2, 6)):
-        if steps and d.bool(0.15):
+        prev_h = [x for x in steps if x["cls"] == "clean.h"]
+        if prev_h and d.bool(0.3):
+            # same name as an earlier header, different content: a guard variant of it (state keyed by names must not leak)
+            src = d.choice(prev_h)
+            lines = src["text"].split("\n")
+            v = d.choice(["nodef", "other-define", "no-endif-guard-text"])
+            out = []
+            for ln in lines:
+                if ln.startswith("# define ") and ln.endswith("_H") and v == "nodef":
+                    continue
+                if ln.startswith("# define ") and ln.endswith("_H") and v == "other-define":
+                    ln = "# define FT_SOMETHING_ELSE"
+                out.append(ln)
+            s = {"cls": "guard-variant", "name": src["name"], "text": "\n".join(out)}
+        elif steps and d.bool(0.15):
             s = dict(d.choice(steps))
         else:
             cls, name, text = step_file(d)
@@ -153,8 +177,8 @@ def comparable(x):
 def check_history(camp, steps, label="history"):
     got = run_in_fork(steps)
     classes = [s["cls"] for s in steps]
-    trig = {"viol", "fatal-garbage", "fatal-if", "fatal-if-deep", "lexical", "clean.h", "comment-scan"}
-    probe = {"deep-parens", "bad-chars", "clean.c", "clean.h", "comment-scan", "viol"}
+    trig = {"viol", "fatal-garbage", "fatal-if", "fatal-if-deep", "lexical", "clean.h", "comment-scan", "header-only", "comments-only", "broken-header"}
+    probe = {"deep-parens", "bad-chars", "clean.c", "clean.h", "comment-scan", "viol", "guard-variant", "broken-header"}
     nt = any(classes[i] in trig and any(c in probe for c in classes[i + 1:]) for i in range(len(classes) - 1))
     camp.case(core.sha([label, [(s["name"], s["text"], s["debug"], s["R"]) for s in steps]]), nt)
     camp.count("steps=%d" % len(steps))
